@@ -624,6 +624,17 @@ def _check_image(ctx, d, ds, fr, reqs, pending):
                         ctx.fail(case, 'reader frame differs from pydicom', site='read_frame')
                 elif st2 == 'ok':
                     ctx.fail(case, 'reader accepted out-of-range index (wrapped?)', site='read_frame')
+            if native and len(blob) < 6000:
+                # the reader against the BYTES OF THE FILE (model lazyRawNativeFile: remembered element position + regenerated header
+                # length of the implicit / explicit VR element + offset table entry, T11f)
+                for i in range(-1, n + 1):
+                    st2, rawf = _fetch(rd.read_frame_raw, i)
+                    reqs.append(('lazyRawNativeFile', {'file': list(blob), 'pixel_data_offset': int(rd._pixel_data_offset),
+                                                       'implicit': d['ts'].startswith('Implicit'), 'rows': d['rows'], 'cols': d['cols'],
+                                                       'samples': d['samples'], 'bits': d['bits'], 'n': n, 'pi': str(ds.PhotometricInterpretation), 'i': i}))
+                    pending.append(({'image': d, 'path': 'reader/native-file', 'i': i, 'what': 'raw frame from the bytes of the file (native)'},
+                                    ('ok', list(rawf)) if st2 == 'ok' else ('err', _err_kind(rawf))))
+                    ctx.case(path='reader/native-file', syntax=d['ts'])
             for bad in (0.0, 1.5, '0', None):
                 for what, f in (('read_frame', lambda: rd.read_frame(bad, correct_color=False)), ('read_frame_raw', lambda: rd.read_frame_raw(bad))):
                     stb, vb = _fetch(f)
